@@ -6,6 +6,7 @@
 package main
 
 import (
+	"encoding/json"
 	"fmt"
 	"net"
 	"strings"
@@ -33,6 +34,9 @@ import (
 	"net/netip"
 
 	v3 "github.com/projectcalico/api/pkg/apis/projectcalico/v3"
+	metav1 "k8s.io/apimachinery/pkg/apis/meta/v1"
+
+	"github.com/projectcalico/calico/libcalico-go/lib/backend/api"
 
 	"verif/harness/rt"
 )
@@ -94,7 +98,9 @@ type dynMgr struct {
 }
 
 type dynState struct {
-	fTok, bTok string
+	fTok, bTok string // bTok: "nil" = no BGPConfiguration resource, "-" = resource without the field, else hex value
+	cc         *confd.VerifC28Client
+	sub        bool // node's network_v4 key present
 	cfg        *config.Config
 	classes    []byte // 'i' | 'v' | 'n' per pool
 	flags      [3]bool
@@ -230,6 +236,63 @@ func (d *dynState) felixHas(cidr string) bool {
 	return false
 }
 
+// ---- confd side: the REAL backend client -----------------------------------------------------------------
+
+const confdNode = "n01"
+
+func (d *dynState) confdInit() {
+	d.cc = confd.VerifC28NewClient(confdNode)
+	d.sub = true
+	d.cc.SetCacheValue("/calico/bgp/v1/host/"+confdNode+"/network_v4", "172.16.0.0/24")
+	for p := range d.classes {
+		d.confdPool(p)
+	}
+	if d.bTok != "nil" {
+		d.confdEvent(api.UpdateTypeKVNew, d.bTok)
+	}
+}
+
+func (d *dynState) confdPool(p int) {
+	i, v := classModes(d.classes[p])
+	js, err := json.Marshal(&model.IPPool{CIDR: cnet.MustParseCIDR(poolCIDR(p)), IPIPMode: i, VXLANMode: v})
+	if err != nil {
+		panic(err)
+	}
+	d.cc.SetCacheValue(fmt.Sprintf("/calico/v1/ipam/v4/pool/10.%d.0.0-16", 10+p), string(js))
+}
+
+// confdEvent feeds the real client a syncer event for BGPConfiguration "default".
+func (d *dynState) confdEvent(t api.UpdateType, tok string) {
+	key := model.ResourceKey{Kind: v3.KindBGPConfiguration, Name: "default"}
+	u := api.Update{KVPair: model.KVPair{Key: key}, UpdateType: t}
+	if t != api.UpdateTypeKVDeleted {
+		res := &v3.BGPConfiguration{
+			TypeMeta:   metav1.TypeMeta{Kind: v3.KindBGPConfiguration, APIVersion: v3.GroupVersionCurrent},
+			ObjectMeta: metav1.ObjectMeta{Name: "default"},
+		}
+		if sv, ok := decode(tok); ok {
+			res.Spec.ProgramClusterRoutes = &sv
+		}
+		u.KVPair.Value = res
+	}
+	d.cc.OnUpdates([]api.Update{u})
+}
+
+// birdVerdict: what the rendered IPv4 calico_kernel_programming filter does with the pool's routes: the first
+// statement for the pool's CIDR decides; with no statement the template's final `accept;` applies.
+func (d *dynState) birdVerdict(p int) bool {
+	sts, err := d.cc.KernelFilterForIPPools(4)
+	if err != nil {
+		panic(err)
+	}
+	for _, st := range sts {
+		if strings.Contains(st, "(net ~ "+poolCIDR(p)+")") {
+			return !strings.Contains(st, "reject;")
+		}
+	}
+	return true
+}
+
 // show evaluates the property on the real code and returns the canonical line.
 func (d *dynState) show(h *rt.H, op string) string {
 	out := []string{"flags=" + b(d.flags[0]) + b(d.flags[1]) + b(d.flags[2])}
@@ -258,8 +321,23 @@ func (d *dynState) show(h *rt.H, op string) string {
 		fr, fl := d.felixHas(remoteBlock(p)), d.felixHas(localBlock(p))
 		i, v := classModes(c)
 		pl := &model.IPPool{CIDR: cnet.MustParseCIDR(poolCIDR(p)), IPIPMode: i, VXLANMode: v}
-		bird := strings.Contains(confd.VerifKernelFilterStatement(bgpCfg(d.bTok), pl, "172.16.0.0/24", 4), "accept; }")
+		bird := d.birdVerdict(p)
+		if d.sub {
+			// cross-check: the single-statement path used by the static ops agrees with the rendered filter
+			if one := strings.Contains(confd.VerifKernelFilterStatement(bgpCfg(d.bTok), pl, "172.16.0.0/24", 4), "accept; }"); one != bird && true {
+				h.Count("dyn:rendered-filter-differs-from-current-setting")
+			}
+		}
 		out = append(out, fmt.Sprintf("p%d=%c%s%s%s", p, c, b(fr), b(fl), b(bird)))
+		if !d.sub {
+			// Observation (not part of the property's quantifier): without the node's network_v4 key processIPPools
+			// emits no IPv4 kernel-filter statement at all and the template's final accept applies.
+			h.Count("obs:no-network_v4")
+			if (fr || fl) && bird {
+				h.Count("obs:no-network_v4:felix-and-bird-both")
+			}
+			continue
+		}
 		if mustHold {
 			in := map[string]any{"op": op, "pool": p, "class": string(c), "felix_setting": fcanon, "bgp_setting": bgpEff,
 				"felix_programs_remote_block": fr, "felix_programs_local_block": fl, "bird_accepts": bird, "history": append([]string{}, dynHist...)}
@@ -291,6 +369,7 @@ func execDyn(h *rt.H, op string) (string, bool) {
 		dyn = &dynState{fTok: w[1], bTok: w[2], cfg: c, classes: []byte(w[3])}
 		dynHist = []string{op}
 		dyn.start()
+		dyn.confdInit()
 		h.Count("dyn:new")
 		return dyn.show(h, op), true
 	case "dset": // dset <pool> <class>
@@ -300,6 +379,7 @@ func execDyn(h *rt.H, op string) (string, bool) {
 		dynHist = append(dynHist, op)
 		p := int(w[1][0] - '0')
 		dyn.classes[p] = w[2][0]
+		dyn.confdPool(p)
 		pre := ""
 		if nf := dyn.encapFlags(); nf != dyn.flags {
 			// encapsulation changed: Felix restarts (daemon.go), fresh managers
@@ -315,6 +395,46 @@ func execDyn(h *rt.H, op string) (string, bool) {
 			h.Count("dyn:reclass-no-restart")
 		}
 		return pre + dyn.show(h, op), true
+	}
+	switch w[0] {
+	case "bset", "bdel", "fset", "dsub":
+		if dyn == nil {
+			panic(w[0] + " before dnew")
+		}
+		dynHist = append(dynHist, op)
+	}
+	switch w[0] {
+	case "bset": // bset <setting>: KVNew (no resource yet) or KVUpdated
+		t := api.UpdateTypeKVUpdated
+		if dyn.bTok == "nil" {
+			t = api.UpdateTypeKVNew
+		}
+		dyn.bTok = w[1]
+		dyn.confdEvent(t, w[1])
+		h.Count("dyn:bgp-set")
+		return dyn.show(h, op), true
+	case "bdel": // the BGPConfiguration is deleted
+		dyn.bTok = "nil"
+		dyn.confdEvent(api.UpdateTypeKVDeleted, "")
+		h.Count("dyn:bgp-delete")
+		return dyn.show(h, op), true
+	case "fset": // Felix's setting changes: Felix restarts
+		c := config.New()
+		if sv, ok := decode(w[1]); ok {
+			_, _ = c.UpdateFrom(map[string]string{"ProgramClusterRoutes": sv}, config.DatastoreGlobal)
+		}
+		dyn.fTok, dyn.cfg = w[1], c
+		dyn.start()
+		h.Count("dyn:felix-set")
+		return "restart " + dyn.show(h, op), true
+	case "dsub":
+		dyn.sub = w[1] == "1"
+		if dyn.sub {
+			dyn.cc.SetCacheValue("/calico/bgp/v1/host/"+confdNode+"/network_v4", "172.16.0.0/24")
+		} else {
+			dyn.cc.DeleteCacheValue("/calico/bgp/v1/host/" + confdNode + "/network_v4")
+		}
+		return dyn.show(h, op), true
 	}
 	return "", false
 }
@@ -334,7 +454,31 @@ func genDyn(h *rt.H) []string {
 		cs[i] = "ivn"[h.Intn(3)]
 	}
 	ops := []string{fmt.Sprintf("dnew %s %s %s", f, bb, string(cs))}
+	pairs := [][2]string{{enc(v3.EnabledIPIPOnly), enc(v3.EnabledNoEncapOnly)}, {enc(v3.Enabled), enc(v3.Disabled)}, {enc(v3.Disabled), enc(v3.Enabled)},
+		{enc(v3.EnabledNoEncapOnly), enc(v3.EnabledIPIPOnly)}, {"-", "-"}, {"-", "nil"}}
 	for k := 0; k < 2+h.Intn(6); k++ {
+		switch h.Intn(8) {
+		case 0, 1: // move to another supported pairing: BGPConfiguration event, then Felix (or the other way round)
+			pr := rt.Pick(h, pairs)
+			bop := "bset " + pr[1]
+			if pr[1] == "nil" {
+				bop = "bdel"
+			}
+			if h.Bool() {
+				ops = append(ops, bop, "fset "+pr[0])
+			} else {
+				ops = append(ops, "fset "+pr[0], bop)
+			}
+			continue
+		case 2: // a lone BGPConfiguration event (delete, re-create, unrecognised value, field cleared)
+			ops = append(ops, rt.Pick(h, []string{"bdel", "bset -", "bset " + randSetting(h), "bset " + enc(rt.Pick(h, four))}))
+			continue
+		case 3:
+			if h.Intn(4) == 0 {
+				ops = append(ops, "dsub 0", "dsub 1")
+				continue
+			}
+		}
 		p := h.Intn(n)
 		var c byte
 		if h.Intn(3) > 0 {
